@@ -267,12 +267,18 @@ func (st *Settings) Encode() {
 		)
 	}
 
+	// Always sent. A parameter that is left out stands at its protocol default,
+	// and for this one that is 1: a client that does not want pushes and says
+	// nothing has allowed them (RFC 7540 6.5.2).
+	push := byte(0)
 	if st.enablePush {
-		st.rawSettings = append(st.rawSettings,
-			byte(EnablePush>>8), byte(EnablePush),
-			0, 0, 0, 1,
-		)
+		push = 1
 	}
+
+	st.rawSettings = append(st.rawSettings,
+		byte(EnablePush>>8), byte(EnablePush),
+		0, 0, 0, push,
+	)
 
 	if st.maxStreams != 0 {
 		st.rawSettings = append(st.rawSettings,
